@@ -159,6 +159,55 @@ def run_header(case: dict) -> list[tuple[str, str]]:
     return fails
 
 
+def filehelper_cases() -> list[dict]:
+    return [{"part": "filehelpers", "api": api, "entry": entry, "cls": cls, "delimited": dl,
+             "stream_name": name, "generalized": g, "rdf_star": r, "ns": ns}
+            for api in ("generic", "rdflib") for entry in ("flat_to_file", "grouped_to_file")
+            for cls in ("triple", "quad") for dl in (True, False)
+            for name in ("", "sensor-é", "n" * 120) for g, r in ((False, False), (True, True))
+            for ns in (False, True) if not (api == "rdflib" and g)]
+
+
+def run_filehelper(case: dict) -> list[tuple[str, str]]:
+    """Header written by the integrations' *_stream_to_file helpers, compared with the options
+    they were given (whatever framing they decide on, the other fields are the caller's)."""
+    from pyjelly.parse.ioutils import get_options_and_frames  # noqa: PLC0415
+
+    cls = case["cls"]
+    opts = DR.make_options(cls, (8, 2, 1), 250, case["delimited"], generalized=case["generalized"],
+                           rdf_star=case["rdf_star"], ns=case["ns"],
+                           stream_name=case["stream_name"])
+    seq = [ST3 if cls == "triple" else ST4]
+    try:
+        data = (DR.g_write if case["api"] == "generic" else DR.r_write)(seq, cls, opts,
+                                                                       case["entry"])
+    except Exception:  # noqa: BLE001
+        return []
+    try:
+        popts, fr = get_options_and_frames(io.BytesIO(data))
+        list(fr)
+    except Exception as e:  # noqa: BLE001
+        return [("read-refused", f"{type(e).__name__}: {e}")]
+    fails = []
+    want = {"stream_name": case["stream_name"], "generalized_statements": case["generalized"],
+            "rdf_star": case["rdf_star"], "namespace_declarations": case["ns"],
+            "version": 2 if case["ns"] else 1}
+    got = {"stream_name": popts.params.stream_name,
+           "generalized_statements": popts.params.generalized_statements,
+           "rdf_star": popts.params.rdf_star,
+           "namespace_declarations": popts.params.namespace_declarations,
+           "version": popts.params.version}
+    for k, v in want.items():
+        if got[k] != v:
+            fails.append(("reader-field", f"{case['entry']} ({case['api']}): reader reports "
+                                          f"{k}={got[k]!r}, the options said {v!r}"))
+    sizes = (popts.lookup_preset.max_names, popts.lookup_preset.max_prefixes,
+             popts.lookup_preset.max_datatypes)
+    if sizes != (8, 2, 1):
+        fails.append(("reader-field", f"table sizes {sizes}, the options said (8, 2, 1)"))
+    return fails
+
+
 def nobindings_cases() -> list[dict]:
     return [{"part": "nobindings", "ns": ns, "delimited": dl, "size": n, "bind": bind}
             for ns in (True, False) for dl in (True, False) for n in (0, 1, 3)
@@ -428,6 +477,12 @@ def shard(job) -> dict:
                         acc.violation({"part": "header", "fail": kind}, f"{msg} case={c}", c)
         if pts:
             acc.sample({"part": "header", "example": list(pts[0])}, cap=1)
+    elif job[0] == "filehelpers":
+        for c in filehelper_cases():
+            acc.evals += 1
+            acc.nontrivial += 1
+            for kind, msg in run_filehelper(c):
+                acc.violation({"part": "filehelpers", "fail": kind}, f"{msg} case={c}", c)
     elif job[0] == "nobindings":
         for c in nobindings_cases():
             acc.evals += 1
@@ -491,6 +546,7 @@ def run(ctx) -> None:
     jobs.append(("derived",))
     jobs.append(("flowtype",))
     jobs.append(("nobindings",))
+    jobs.append(("filehelpers",))
     pc = parse_cases()
     jobs += [("parse", pc[i::8]) for i in range(8)]
     merged = pool.merge(pool.pmap(shard, jobs))
@@ -520,6 +576,8 @@ def replay(case: dict) -> list:
     DR.ensure_rdflib_plugin()
     if case.get("part") == "header":
         return [m for _, m in run_header(case)]
+    if case.get("part") == "filehelpers":
+        return [m for _, m in run_filehelper(case)]
     if case.get("part") == "nobindings":
         return [m for _, m in run_nobindings(case)]
     if case.get("part") == "flowtype":
